@@ -22,7 +22,7 @@ SelE(e, k) == <<"Sel", e, k, FALSE>>
 SelA(e, k) == <<"Sel", e, k, TRUE>>
 
 \* ---- data maps (descriptions, FData)
-T0 == <<"time", 0>>
+T0 == <<"time", 0, 0, 0>>
 D6 == [ nan |-> <<"f64nan">>, pinf |-> <<"f64inf", FALSE>>, ninf |-> <<"f64inf", TRUE>>,
         negzero |-> <<"f64", TRUE, <<>>, 0>>, zerof |-> <<"f64", FALSE, <<>>, 0>>, int0 |-> <<"int", 0>>,
         int5 |-> <<"int", 5>>, s0 |-> <<"str", <<>>>>, sa |-> <<"str", <<97>>>>,
@@ -43,7 +43,7 @@ D16 == [ m |-> <<"map", [a |-> <<"map", [b |-> <<"map", [a |-> <<"int", 7>>, z |
          st |-> <<"struct", [A |-> <<"int", 4>>, B |-> <<"map", [a |-> <<"f64", FALSE, <<2,5>>, -1>>]>>, N |-> <<"nilptr">>], {"c"}>>,
          np |-> <<"nilptr">>, nl |-> <<"nil">>, s |-> <<"str", <<97>>>>, n |-> <<"int", 3>>, a |-> <<"int32", 9>>,
          len |-> <<"int", 99>>, abs |-> <<"str", <<104>>>>, bt |-> <<"bool", FALSE>>, sl |-> <<"slice", <<<<"int", 1>>>>>>,
-         tt |-> <<"time", 0>> ]
+         tt |-> <<"time", 0, 0, 0>> ]
 \* C07: locals, caller-owned numbers, recorder
 D7 == [ x |-> <<"dec", FALSE, <<5>>, 0>>, y |-> <<"map", [k |-> <<"dec", TRUE, <<2,5>>, -1>>, l |-> <<"slice", <<<<"int", 1>>, <<"int", 2>>>>>>]>>,
         n |-> <<"int", 3>>, rec |-> <<"func", "rec">>, recs |-> <<"func", "recs">>, fail |-> <<"func", "fail">> ]
@@ -53,7 +53,7 @@ D3 == [ i |-> <<"int", 2>>, f |-> <<"f64", FALSE, <<1,5>>, -1>>, s |-> <<"str", 
         np |-> <<"nilptr">>, m |-> <<"map", [k |-> <<"int", 1>>]>>, tm |-> <<"tmapint", [z |-> 0]>>, im |-> <<"imap">>,
         st |-> <<"struct", [A |-> <<"int", 1>>, B |-> <<"nil">>, N |-> <<"nil">>], {"c"}>>, ps |-> <<"ptrstruct", [A |-> <<"int", 1>>, B |-> <<"nil">>, N |-> <<"nil">>], {"c"}>>,
         sl |-> <<"slice", <<<<"int", 1>>, <<"str", <<98>>>>>>>>, ss |-> <<"strs", <<<<97>>, <<98>>>>>>, u |-> <<"uint", 3>>,
-        t |-> <<"time", 0>>, rec |-> <<"func", "rec">>, fail |-> <<"func", "fail">>, failv |-> <<"func", "failv">>, add2 |-> <<"func", "add2">>, cat |-> <<"func", "cat">>,
+        t |-> <<"time", 0, 0, 0>>, rec |-> <<"func", "rec">>, fail |-> <<"func", "fail">>, failv |-> <<"func", "failv">>, add2 |-> <<"func", "add2">>, cat |-> <<"func", "cat">>,
         nan |-> <<"f64nan">>, inf |-> <<"f64inf", FALSE>> ]
 \* C10: full map and its restrictions are built by the driver
 D10 == [ a |-> <<"map", [b |-> <<"map", [c |-> <<"int", 1>>]>>, k |-> <<"int", 2>>]>>, b |-> <<"int", 3>>, c |-> <<"str", <<99>>>>,
